@@ -56,7 +56,7 @@ Proof.
       * destruct (drain s t) as [[a b] c0] eqn:E. intros H; injection H as <- _ _. eapply IH; eauto.
       * intros H. apply IH in H. exact H.
     + intros H. apply IH in H. exact H.
-    + destruct (drain (set_hopen s p false) t) as [[a b] c0] eqn:E. intros H; injection H as <- _ _.
+    + destruct (drain (set_hsink (set_hopen s p false) p None) t) as [[a b] c0] eqn:E. intros H; injection H as <- _ _.
       apply IH in E. exact E.
     + intros H. eapply IH; eauto.
     + intros H. eapply IH; eauto.
